@@ -198,6 +198,7 @@ macro_rules! core_ops_impl {
             ) -> (Result<(), String>, sched::Report, bool, usize) {
                 crate::sched::install_hooks();
                 let mut arena = Arena::new(w, declared, declared.next_multiple_of(64) + 8192);
+                let twice = matches!(w.mode, WindowMode::ExactTwice | WindowMode::GenerousTwice);
                 if crate::sched::nested() {
                     // c20 MIX: this thread already runs under the scheduler, which keeps deciding at every carve
                     let r = crate::util::catch(|| {
@@ -209,7 +210,12 @@ macro_rules! core_ops_impl {
                 let range = arena.range();
                 let (r, rep) = sched::run_monitored(range, || {
                     let s: &mut Scratch<BE> = Scratch::<BE>::from_bytes(arena.window());
-                    body(s)
+                    body(s);
+                    if twice {
+                        // the same call again on what the first one left behind
+                        let s: &mut Scratch<BE> = Scratch::<BE>::from_bytes(arena.window());
+                        body(s)
+                    }
                 });
                 (r, rep, arena.canaries_intact(), arena.len)
             }
@@ -274,7 +280,9 @@ macro_rules! core_ops_impl {
                         let infos = glwe_l(sh.n, sh.b_res, sh.k_res, sh.rank_out);
                         let enc = EncryptionLayout::new_from_default_sigma(infos).unwrap();
                         let (_s, sp) = sk(c, sh.rank_out, sh.seed);
-                        let mut pt: GLWEPlaintext<Vec<u8>> = GLWEPlaintext::alloc_from_infos(&infos);
+                        // the plaintext has the ciphertext's radix and its own precision (fewer, as many or more limbs)
+                        let pt_infos = if sh.extra & 1 == 1 { glwe_l(sh.n, sh.b_res, sh.k_in, sh.rank_out) } else { infos };
+                        let mut pt: GLWEPlaintext<Vec<u8>> = GLWEPlaintext::alloc_from_infos(&pt_infos);
                         pt.data_mut().fill_uniform(sh.b_res as usize, &mut src(sh.seed, 2));
                         let mut ct: GLWE<Vec<u8>> = GLWE::alloc_from_infos(&infos);
                         let declared = m.glwe_encrypt_sk_tmp_bytes(&infos);
@@ -288,13 +296,18 @@ macro_rules! core_ops_impl {
                         let (_s, sp) = sk(c, sh.rank_out, sh.seed);
                         let mut ct: GLWE<Vec<u8>> = GLWE::alloc_from_infos(&infos);
                         ct.fill_uniform(sh.b_res as usize, &mut src(sh.seed, 2));
-                        let mut pt: GLWEPlaintext<Vec<u8>> = GLWEPlaintext::alloc_from_infos(&infos);
+                        // the plaintext has its own radix and precision (the final normalisation converts: narrower,
+                        // wider, other radix)
+                        let pt_infos = if sh.extra & 1 == 1 { glwe_l(sh.n, sh.b_in, sh.k_in, sh.rank_out) } else { infos };
+                        let mut pt: GLWEPlaintext<Vec<u8>> = GLWEPlaintext::alloc_from_infos(&pt_infos);
                         let declared = m.glwe_decrypt_tmp_bytes(&infos);
                         let r = windowed(declared, w, &mut |s| m.glwe_decrypt(&ct, &mut pt, &sp, s));
                         finish(r, declared, vec![pt.data().data.clone()])
                     }
                     "glwe_keyswitch" | "glwe_keyswitch_assign" | "glwe_switching_key_prepare" | "glwe_switching_key_encrypt_sk" => {
-                        let in_infos = glwe_l(sh.n, sh.b_in, sh.k_in, sh.rank_in);
+                        // (in place the key maps rank_out -> rank_out: the receiver is both input and output)
+                        let rank_in = if op == "glwe_keyswitch_assign" { sh.rank_out } else { sh.rank_in };
+                        let in_infos = glwe_l(sh.n, sh.b_in, sh.k_in, rank_in);
                         let out_infos = glwe_l(sh.n, sh.b_res, sh.k_res, sh.rank_out);
                         let ksk_infos = GLWESwitchingKeyLayout {
                             n: Degree(sh.n),
@@ -302,7 +315,7 @@ macro_rules! core_ops_impl {
                             k: TorusPrecision(sh.k_key),
                             dnum: Dnum(sh.dnum()),
                             dsize: Dsize(sh.dsize),
-                            rank_in: Rank(sh.rank_in),
+                            rank_in: Rank(rank_in),
                             rank_out: Rank(sh.rank_out),
                         };
                         let mut ksk: GLWESwitchingKey<Vec<u8>> = GLWESwitchingKey::alloc_from_infos(&ksk_infos);
@@ -411,11 +424,23 @@ macro_rules! core_ops_impl {
                             }
                             _ => {
                                 use poulpy_bin_fhe::bdd_arithmetic::Cmux;
-                                let mut f: GLWE<Vec<u8>> = GLWE::alloc_from_infos(&in_infos);
-                                f.fill_uniform(sh.b_in as usize, &mut src(sh.seed, 7));
-                                let mut res: GLWE<Vec<u8>> = GLWE::alloc_from_infos(&out_infos);
-                                let declared = m.cmux_tmp_bytes(&out_infos, &in_infos, &ggsw_infos);
-                                let r = windowed(declared, w, &mut |s| m.cmux(&mut res, &a, &f, &gp, s));
+                                // `res = (t - f) * s + f`: the difference is formed in `res` (glwe_sub wants one radix for
+                                // all three) and multiplied in place (`glwe_external_product_internal` wants the GGSW's
+                                // radix): every ciphertext is in the key's radix, precisions from the shape; one draw in
+                                // four keeps the shape's own radices (rejected at entry unless they coincide)
+                                let own = (sh.seed >> 53) & 3 == 0;
+                                let (b_t, b_r) = if own { (sh.b_in, sh.b_res) } else { (sh.b_key, sh.b_key) };
+                                let t_infos = glwe_l(sh.n, b_t, sh.k_in, sh.rank_out);
+                                let r_infos = glwe_l(sh.n, b_r, sh.k_res, sh.rank_out);
+                                let mut t: GLWE<Vec<u8>> = GLWE::alloc_from_infos(&t_infos);
+                                t.fill_uniform(b_t as usize, &mut src(sh.seed, 6));
+                                // the false branch has its own precision
+                                let f_infos = glwe_l(sh.n, b_t, if sh.extra & 1 == 1 { sh.k_res } else { sh.k_in }, sh.rank_out);
+                                let mut f: GLWE<Vec<u8>> = GLWE::alloc_from_infos(&f_infos);
+                                f.fill_uniform(b_t as usize, &mut src(sh.seed, 7));
+                                let mut res: GLWE<Vec<u8>> = GLWE::alloc_from_infos(&r_infos);
+                                let declared = m.cmux_tmp_bytes(&r_infos, &t_infos, &ggsw_infos);
+                                let r = windowed(declared, w, &mut |s| m.cmux(&mut res, &t, &f, &gp, s));
                                 finish(r, declared, vec![res.data().data.clone()])
                             }
                         }
@@ -432,12 +457,14 @@ macro_rules! core_ops_impl {
                             dsize: Dsize(sh.dsize),
                         };
                         let mut atk: GLWEAutomorphismKey<Vec<u8>> = GLWEAutomorphismKey::alloc_from_infos(&atk_infos);
-                        // a real Galois element is needed: encrypt the key for p = 5
+                        // a real Galois element is needed: encrypt the key for an odd p (any: generators, 1, -1, negative,
+                        // at and beyond the cyclotomic order, large)
                         let enc = EncryptionLayout::new_from_default_sigma(atk_infos).unwrap();
                         let (s0, _) = sk(c, sh.rank_out, sh.seed);
                         {
                             use poulpy_core::GLWEAutomorphismKeyEncryptSk;
-                            m.glwe_automorphism_key_encrypt_sk(&mut atk, 5, &s0, &enc, &mut src(sh.seed, 3), &mut src(sh.seed, 4), big.borrow());
+                            let p = crate::c12::ops::draw::galois(sh.seed >> 44, sh.n);
+                            m.glwe_automorphism_key_encrypt_sk(&mut atk, p, &s0, &enc, &mut src(sh.seed, 3), &mut src(sh.seed, 4), big.borrow());
                         }
                         let mut ap = m.glwe_automorphism_key_prepared_alloc_from_infos(&atk);
                         m.glwe_automorphism_key_prepare(&mut ap, &atk, big.borrow());
@@ -473,8 +500,9 @@ macro_rules! core_ops_impl {
                         let k_res = sh.b_res * (size_res - 1) + 1 + (sh.k_res % sh.b_res).min(sh.b_res - 1);
                         let k_big = sh.k_key.max(k_res);
                         let rows = |b: u32, k: u32| -> u32 { (k.div_ceil(b)).saturating_sub(1).max(1) };
-                        let n_lwe = sh.n_lwe.max(2);
-                        let block = if n_lwe % 3 == 0 { 3 } else if n_lwe % 2 == 0 { 2 } else { 1 };
+                        // block size 1..4 of the block-binary LWE secret; the LWE dimension is a multiple of it
+                        let block = 1 + (sh.seed >> 36) as u32 % 4;
+                        let n_lwe = sh.n_lwe.max(2).next_multiple_of(block);
                         let b_tsk = sh.b_key.saturating_sub(1).max(6);
                         let cbt_infos = CircuitBootstrappingKeyLayout {
                             brk_layout: BlindRotationKeyLayout {
@@ -557,13 +585,24 @@ macro_rules! core_ops_impl {
                         kp.prepare(m, &key, big.borrow());
                         // the entry assert evaluates the query on the prepared key's own infos (k rounded up to whole
                         // limbs), so that is what a caller has to budget
+                        // LUT shape: 2^log_domain entries per gadget row, `alpha` rows (dnum rounded up to a power of two):
+                        // the table must fit the ring ("f must have length at most N"), so log_domain <= log_n - log2(alpha);
+                        // extension factor 1, 2 or 4 (the LWE secret is block-binary, as the extended rotation requires)
+                        let alpha = ((size_res - 1).max(1) as usize).next_power_of_two();
+                        let log_n = sh.n.trailing_zeros() as usize;
+                        let max_log_domain = log_n.saturating_sub(alpha.trailing_zeros() as usize);
+                        let ext = [1usize, 1, 2, 4][(sh.seed >> 24) as usize % 4];
                         let declared = m
-                            .circuit_bootstrapping_execute_tmp_bytes(block as usize, 1, &ggsw_infos, &cbt_infos)
-                            .max(m.circuit_bootstrapping_execute_tmp_bytes(block as usize, 1, &res, &kp));
+                            .circuit_bootstrapping_execute_tmp_bytes(block as usize, ext, &ggsw_infos, &cbt_infos)
+                            .max(m.circuit_bootstrapping_execute_tmp_bytes(block as usize, ext, &res, &kp));
                         let r = if op == "circuit_bootstrapping_execute_to_constant" {
-                            windowed(declared, w, &mut |s| kp.execute_to_constant(m, &mut res, &lwe, 1, 1, s))
+                            let log_domain = crate::c12::ops::draw::index(sh.seed >> 20, max_log_domain + 1);
+                            windowed(declared, w, &mut |s| kp.execute_to_constant(m, &mut res, &lwe, log_domain, ext, s))
                         } else {
-                            windowed(declared, w, &mut |s| kp.execute_to_exponent(m, 1, &mut res, &lwe, 1, 1, s))
+                            // the repacking step places 2^log_domain ciphertexts 2^log_gap_out apart: they have to stay below N
+                            let log_domain = (sh.seed >> 20) as usize % (max_log_domain.min(2) + 1);
+                            let log_gap_out = crate::c12::ops::draw::index(sh.seed >> 28, log_n - log_domain + 1);
+                            windowed(declared, w, &mut |s| kp.execute_to_exponent(m, log_gap_out, &mut res, &lwe, log_domain, ext, s))
                         };
                         let mut bytes = Vec::new();
                         poulpy_hal::layouts::WriterTo::write_to(&res, &mut bytes).unwrap();
